@@ -599,8 +599,23 @@ let op_dynext opidx (_impl : string list option) toks =
        | _ -> ())
   | [] -> ()
 
+(* query <naptr|srv> <namehex>: the lookup makes one resolver call, an exact one (no search list, no default domain),
+   for exactly the name it was given, with the record type of the form (NAPTR 35, SRV 33) *)
+let op_query opidx (impl : string list option) toks =
+  match toks with
+  | [ kind; name ] ->
+      let ty = if kind = "naptr" then 35 else 33 in
+      let want = Printf.sprintf "exact:%d:%s" ty name in
+      pr "obs %d query n=1 %s\n" opidx want;
+      (match impl with
+       | Some ("query" :: _ :: calls) ->
+           spec opidx "C20_query_exact_name" (calls = [ want ]) (Printf.sprintf "resolver calls [%s], wanted one exact query for the name as given" (String.concat " " calls))
+       | _ -> ())
+  | _ -> ()
+
 let run (opidx : int) (impl : string list option) (toks : string list) : bool =
   match toks with
+  | "query" :: rest -> op_query opidx impl rest; true
   | "dynext" :: rest -> op_dynext opidx impl rest; true
   | "udp" :: rest -> op_udp opidx impl rest; true
   | "dynsrv" :: rest -> op_dynsrv opidx impl rest; true
